@@ -62,6 +62,19 @@ def raw_invariants(raw, in_tx=False):
     for r in raw['item_value']:
         if (r[0], r[1]) not in seen:
             bad.append('item_value without loop_item')
+    # every packet (row) of a loop holds a value - at least the explicit unknown one - for every item of the loop
+    items_of = {}
+    for cid, name, orig, ln in raw['loop_item']:
+        items_of.setdefault((cid, ln), set()).add(name)
+    loop_of = {(cid, name): ln for cid, name, orig, ln in raw['loop_item']}
+    rows = {}
+    for r in raw['item_value']:
+        k = (r[0], loop_of.get((r[0], r[1])))
+        rows.setdefault((k, r[2]), set()).add(r[1])
+    for (k, row), names in rows.items():
+        if k in items_of and names != items_of[k]:
+            bad.append('packet %r of loop %r stores values for %r only (items: %r)' % (row, k, sorted(names), sorted(items_of[k])))
+            break
     return bad
 
 
